@@ -265,6 +265,22 @@ def extract(source: str | None = None):
         if d != exp:
             fail(f"{c}.{m}: default arguments {d}, expected {exp}", fn)
 
+    # how the local filesystem provides Dir._calc_hash with the member hashes: only the inherited generic
+    # FileSystem.iter_file_hashes (iterate Dir(path), i.e. the same listing that iterating a Dir uses) is
+    # recognised; an own LocalFileSystem.iter_file_hashes may hash other files than the Dir lists
+    lfs = methods(find_class(mod, "LocalFileSystem"))
+    if [src(b) for b in find_class(mod, "LocalFileSystem").bases] != ["FileSystem"]:
+        fail("LocalFileSystem: unexpected bases")
+    if "iter_file_hashes" in lfs:
+        fail("LocalFileSystem defines its own iter_file_hashes: the files it hashes are not known to be the files "
+             "a Dir lists (Model/FileVal.v local_hash_walk = WalkListing)", lfs["iter_file_hashes"])
+    for forbidden in ("__getattr__", "__getattribute__"):
+        if forbidden in lfs:
+            fail(f"LocalFileSystem defines {forbidden}")
+    gen_ifh = methods(find_class(mod, "FileSystem")).get("iter_file_hashes")
+    if gen_ifh is None or gen_ifh.decorator_list or stmts(gen_ifh) != ("for file in Dir(path):\n    yield file.hash",):
+        fail("FileSystem.iter_file_hashes: unrecognised body (expected `for file in Dir(path): yield file.hash`)", gen_ifh)
+
     row = {r[0]: r for r in rows}
     variant = {
         "dir_copy_updates": dc,
@@ -306,6 +322,10 @@ def translate(source: str | None = None, pins: dict | None = None):
              "   and the update sites the model describes for that variant must be what the source says. *)")
     v.append("Lemma C30_tie_table : gen_table = class_table gen_variant.\nProof. reflexivity. Qed.")
     v.append("Lemma C30_tie_sites : gen_sites = sites_of gen_variant.\nProof. reflexivity. Qed.")
+    v.append("(* LocalFileSystem inherits FileSystem.iter_file_hashes, which iterates Dir(path): the hashing walk of a\n"
+             "   Dir is its listing (C30_dir_hash_is_over_the_listing) *)\n"
+             "Definition gen_local_hash_walk : hash_walk := WalkListing.\n"
+             "Lemma C30_tie_hash_walk : gen_local_hash_walk = local_hash_walk.\nProof. reflexivity. Qed.")
     return "\n".join(v) + "\n", variant, got
 
 
